@@ -394,4 +394,214 @@ theorem step_acctM (c : Cfg) (s s' : State) (a : Action) (hv : c.Valid) (hm : c.
         exact this
       · right; exact hf
 
+/-! ## initial state, runs -/
+
+theorem prime_acct (c : Cfg) (n : Nat) (s : State) (hv : c.Valid) (hm : c.iterable = false) (hio : c.inOrder = true)
+    (h : MidM c s)
+    (hacc : ∀ e' ∈ s.info, e'.res = none → InFlight s e'.idx ∨ InQueue s e'.w e'.idx)
+    (hnoend : ∀ (w : Nat) (k : Worker), s.workers[w]? = some k → k.iterEnd = false) :
+    (∀ e' ∈ (prime c n s).info, e'.res = none → InFlight (prime c n s) e'.idx ∨ InQueue (prime c n s) e'.w e'.idx) ∧
+    (∀ (w : Nat) (k : Worker), (prime c n s).workers[w]? = some k → k.iterEnd = false) := by
+  induction n generalizing s with
+  | zero => exact ⟨hacc, hnoend⟩
+  | succ n ih =>
+    unfold prime
+    obtain ⟨hg, hinf⟩ := tryPut_acct c s hv hm hio h
+    have hc := tryPut_sameCore c s
+    refine ih (tryPut c s) (MidM_tryPut c s hv hm hio h).1 ?_ (noend_grow s _ hg hnoend)
+    have hold : ∀ e' ∈ s.info, e'.res = none →
+        InFlight (tryPut c s) e'.idx ∨ InQueue (tryPut c s) e'.w e'.idx := by
+      intro e' he' hn
+      rcases hacc e' he' hn with hf | hf
+      · left
+        obtain ⟨r', hr', hidx⟩ := hf
+        exact ⟨r', by rw [hc.resQ]; exact hr', hidx⟩
+      · exact Or.inr (InQueue_grow s _ _ _ hg hf)
+    intro e' he' hn
+    rcases hinf with hinf | ⟨en, hinf, hn1, hn2⟩
+    · rw [hinf] at he'; exact hold e' he' hn
+    · rw [hinf, List.mem_append, List.mem_singleton] at he'
+      rcases he' with he' | he'
+      · exact hold e' he' hn
+      · subst he'; exact Or.inr hn2
+
+theorem init_acctM (c : Cfg) (hv : c.Valid) (hm : c.iterable = false) (hio : c.inOrder = true) :
+    AcctM c (init c) := by
+  unfold init resetTail
+  generalize hs0 : ({ resetHead c _ with mainSnaps := [], lastW := c.W - 1, snap := _ } : State) = s0
+  have hmid0 : MidM c s0 := by
+    subst hs0
+    refine ⟨rfl, rfl, Nat.zero_le _, by simp [resetHead], rfl, trivial, by simp [resetHead], ?_, ?_⟩
+    · intro w k hk m hmem
+      simp only [resetHead, List.getElem?_replicate] at hk
+      split at hk
+      · cases hk; simp at hmem
+      · cases hk
+    · intro r hr; simp [resetHead] at hr
+  have hacc0 : ∀ e' ∈ s0.info, e'.res = none → InFlight s0 e'.idx ∨ InQueue s0 e'.w e'.idx := by
+    subst hs0; intro e' he'; simp [resetHead] at he'
+  have hnoend0 : ∀ (w : Nat) (k : Worker), s0.workers[w]? = some k → k.iterEnd = false := by
+    subst hs0
+    intro w k hk
+    simp only [resetHead, List.getElem?_replicate] at hk
+    split at hk
+    · cases hk; rfl
+    · cases hk
+  obtain ⟨h1, h2⟩ := prime_acct c (c.P * c.W) s0 hv hm hio hmid0 hacc0 hnoend0
+  have hc := prime_sameCore c (c.P * c.W) s0
+  have e3 : s0.phase = .idle := by subst hs0; rfl
+  exact ⟨h1, h2, fun hph => by rw [hc.phase, e3] at hph; cases hph⟩
+
+/-- All three map-style invariants along any reset-free run. -/
+theorem run_map_all (c : Cfg) (as : List Action) (s s' : State) (hv : c.Valid) (hm : c.iterable = false)
+    (hio : c.inOrder = true) (hnr : NoReset as)
+    (h : (InvM c s ∧ SnapM c s ∧ (s.shutdown = false → AcctM c s)) ∨ died s) (hr : run c s as = some s') :
+    (InvM c s' ∧ SnapM c s' ∧ (s'.shutdown = false → AcctM c s')) ∨ died s' := by
+  induction as generalizing s with
+  | nil => simp only [run] at hr; cases hr; exact h
+  | cons a as ih =>
+    simp only [run] at hr
+    split at hr
+    · cases hr
+    · rename_i s1 hs1
+      refine ih s1 hnr.2 ?_ hr
+      rcases h with ⟨h1, h2, h3⟩ | h
+      · rcases step_invM c s s1 a hv hm hio hnr.1 h1 hs1 with h4 | h4
+        · rcases step_snapM c s s1 a hv hm hio hnr.1 h1 h2 hs1 with h5 | h5
+          · rcases step_acctM c s s1 a hv hm hio hnr.1 h1 h3 hs1 with h6 | h6
+            · exact Or.inl ⟨h4, h5, h6⟩
+            · exact Or.inr h6
+          · exact Or.inr h5
+        · exact Or.inr h4
+      · exact Or.inr (died_step c s s1 a hs1 h)
+
+/-! ## progress and variant -/
+
+theorem failedWorkers_mem (s : State) (n w : Nat) (k : Worker) (hw : w < n) (hup : up s w = true)
+    (hk : s.workers[w]? = some k) (hd : k.alive = false) : w ∈ failedWorkers s n := by
+  induction n with
+  | zero => omega
+  | succ n ih =>
+    unfold failedWorkers
+    by_cases hwn : w = n
+    · subst hwn
+      apply List.mem_append_right
+      simp [hup, hk, hd]
+    · exact List.mem_append_left _ (ih (by omega))
+
+/-- **kill detection**: the liveness poll reports a dead worker that is still expected to work. -/
+theorem pollTimeout_detects (c : Cfg) (s : State) (w : Nat) (k : Worker) (hph : s.phase ≠ .idle) (hq : s.resQ = [])
+    (hw : w < c.W) (hup : up s w = true) (hk : s.workers[w]? = some k) (hd : k.alive = false) :
+    ∃ s', step c s .pollTimeout = some s' ∧ s'.obs = (markAll c s (failedWorkers s c.W)).obs ++ [.workerDied] ∧
+      s'.phase = .idle := by
+  have hmem := failedWorkers_mem s c.W w k hw hup hk hd
+  simp only [step, hph, hq, ne_eq, not_true_eq_false, or_self, if_false]
+  cases hf : failedWorkers s c.W with
+  | nil => rw [hf] at hmem; cases hmem
+  | cons f fs => exact ⟨_, rfl, rfl, rfl⟩
+
+theorem progress_of_inv (c : Cfg) (s : State) (hv : c.Valid) (h : InvM c s)
+    (ha : s.shutdown = false → AcctM c s) (hph : s.phase = .waiting) :
+    (∃ s', step c s .recv = some s') ∨ (∃ w s', step c s (.work w) = some s') ∨
+    (∃ s', step c s .pollTimeout = some s' ∧ died s') := by
+  have hsd : s.shutdown = false := by
+    rcases Bool.eq_false_or_eq_true s.shutdown with hsd | hsd
+    · have := (h.down hsd).2.1; rw [hph] at this; cases this
+    · exact hsd
+  have hmid := h.mid hsd
+  have hA := ha hsd
+  obtain ⟨e, l, hi, hres⟩ := hA.wait hph
+  cases hq : s.resQ with
+  | cons r rest =>
+    left
+    have hg := (hmid.resq r (by rw [hq]; exact List.mem_cons_self ..)).1
+    have hna : r.kind ≠ .ack := by
+      obtain ⟨it, _, hk⟩ := hg.2
+      rw [hk]; cases it <;> simp [kindOf]
+    simp only [step, hq, hph, hna, if_false]
+    exact ⟨_, rfl⟩
+  | nil =>
+    right
+    rcases hA.acct e (by rw [hi]; exact List.mem_cons_self ..) hres with hf | hf
+    · obtain ⟨r, hr, _⟩ := hf
+      rw [hq] at hr; cases hr
+    · obtain ⟨k, hk, p, sn, hmem⟩ := hf
+      have hinfo := hmid.info
+      rw [hi] at hinfo
+      rcases Bool.eq_false_or_eq_true k.alive with hal | hal
+      · left
+        refine ⟨e.w, ?_⟩
+        cases hkq : k.q with
+        | nil => rw [hkq] at hmem; cases hmem
+        | cons m rest =>
+          simp only [step, hk, hal, hkq, Bool.not_true, Bool.false_eq_true, if_false]
+          exact ⟨_, rfl⟩
+      · right
+        have hw : e.w < c.W := by rw [hinfo.2.1]; exact Nat.mod_lt _ hv.1
+        have hup : up s e.w = true := up_replicate s c.W _ hmid.status hw
+        obtain ⟨s', hs', hobs, _⟩ := pollTimeout_detects c s e.w k (by rw [hph]; simp) hq hw hup hk hal
+        exact ⟨s', hs', by unfold died; rw [hobs]; simp⟩
+
+/-- The variant: twice the queued index messages plus the results in flight. -/
+def qsum : List Worker → Nat
+  | [] => 0
+  | k :: r => k.q.length + qsum r
+
+def measure (s : State) : Nat := 2 * qsum s.workers + s.resQ.length
+
+theorem qsum_set (ws : List Worker) (w : Nat) (k k' : Worker) (hk : ws[w]? = some k) :
+    qsum (ws.set w k') + k.q.length = qsum ws + k'.q.length := by
+  induction ws generalizing w with
+  | nil => simp at hk
+  | cons x ws ih =>
+    cases w with
+    | zero =>
+      simp only [List.getElem?_cons_zero, Option.some.injEq] at hk
+      subst hk
+      simp only [List.set_cons_zero, qsum]; omega
+    | succ w =>
+      simp only [List.getElem?_cons_succ] at hk
+      have := ih w hk
+      simp only [List.set_cons_succ, qsum]; omega
+
+/-- Every `work` action decreases the variant (any configuration, any state). -/
+theorem work_decreases (c : Cfg) (s s' : State) (w : Nat) (hst : step c s (.work w) = some s') :
+    measure s' < measure s := by
+  simp only [step] at hst
+  split at hst
+  · cases hst
+  · rename_i k hk
+    split at hst
+    · cases hst
+    · split at hst
+      · cases hst
+      · rename_i m rest hq
+        cases hst
+        have hs := qsum_set s.workers w k
+          (handle c s.shutdown w { q := rest, pos := k.pos, iterEnd := k.iterEnd, alive := k.alive } m).1 hk
+        rw [handle_q, hq] at hs
+        simp only [List.length_cons] at hs
+        unfold measure
+        simp only
+        split
+        · simp only [List.length_append, List.length_singleton]; omega
+        · omega
+
+/-- A `recv` after which the consumer is still blocked decreases the variant (map-style). -/
+theorem recv_decreases_map (c : Cfg) (s s' : State) (hv : c.Valid) (hm : c.iterable = false)
+    (hio : c.inOrder = true) (h : InvM c s) (hst : step c s .recv = some s') (hph : s'.phase = .waiting) :
+    measure s' < measure s := by
+  obtain ⟨r, rest, hsd, _, hq, hg, hlt, hmid0, hr⟩ := recv_cases c s s' hv hm hio h hst
+  cases hr with
+  | now e l hi hri heq => subst heq; simp [popProc, finish] at hph
+  | store hne hmid2 hl =>
+    cases hl with
+    | stop hle heq => subst heq; simp [finish] at hph
+    | proc e l r' hi hres hg' hri heq => subst heq; simp [popProc, finish] at hph
+    | wait e l hi hres heq =>
+      subst heq
+      unfold measure
+      simp only [hq, List.length_cons]
+      omega
+
 end TDV.MP
